@@ -2508,6 +2508,46 @@ theorem c14_route_trimleft_eats_the_path :
     route ["VerifC14".toList, "VerifC15".toList] "/VerifC14NoSuchService/C14Echo".toList = none ∧
     route ["VerifC14".toList] "/VerifC14/a/b//c".toList = some ("VerifC14".toList, "a/b//c".toList) := by decide
 
+/-- **a parallel request as a whole** (`GetList`, the nobody test, the routines): for every roster without duplicate
+nodes, every content of the options, every permutation, every answering behaviour of the nodes (`answer n = none`: the
+`Send` to node `n` fails) and every interleaving of the routines — when a node is handed back it is a node of the
+roster that is not ignored and that answered, and `ret` holds exactly its reply; when nobody can be asked the call
+ends with an error before any routine starts; when nobody answers nobody is handed back. -/
+theorem c14_parallel_call_hands_back_an_asked_node (nodes : List Nat) (po : Option ParOpts) (rp : List Nat)
+    (hn : nodes.Nodup) (hp : rp.Nodup) (hl : ∀ p ∈ rp, p < nodes.length)
+    (answer : Nat → Option Bytes) (sched : List Nat) :
+    let asked := (getList nodes po rp).2
+    let p := parRun true (parInitF (asked.map answer)) sched
+    (asked = [] → nobodyToAsk true asked = some .error) ∧
+    (p.done = true → ∃ i n r, p.winner = some i ∧ asked[i]? = some n ∧ n ∈ nodes ∧ n ∉ ignoreOf po ∧
+      answer n = some r ∧ p.ret = some r) ∧
+    ((∀ n ∈ asked, answer n = none) → p.done = false ∧ p.winner = none) := by
+  intro asked p
+  obtain ⟨_, hmem, _, _⟩ := c14_getlist_asked nodes po rp hn hp hl
+  obtain ⟨h1, h2⟩ := c14_parallel_pair_with_failures (asked.map answer) sched
+  refine ⟨(c14_parallel_nobody_to_ask_is_an_error nodes po rp).1, fun hd => ?_, fun hall => ?_⟩
+  · obtain ⟨i, r, hw, hr, hret⟩ := h1 hd
+    rw [List.getElem?_map] at hr
+    cases ha : asked[i]? with
+    | none => rw [ha] at hr; simp at hr
+    | some n =>
+      rw [ha] at hr
+      simp only [Option.map_some, Option.some.injEq] at hr
+      have hm := hmem n (List.mem_of_getElem? ha)
+      exact ⟨i, n, r, hw, ha, hm.1, hm.2, hr, hret⟩
+  · apply h2
+    intro r hr
+    rw [List.mem_map] at hr
+    obtain ⟨n, hn', rfl⟩ := hr
+    exact hall n hn'
+
+/-- non-vacuity: five nodes, node 13 ignored, node 10 unreachable, the others answer with their own name; whoever the
+schedule lets win is handed back with its own reply -/
+example :
+    let asked := (getList [10, 11, 12, 13, 14] (some { ignore := [13], dontShuffle := true }) []).2
+    let p := parRun true (parInitF (asked.map fun n => if n = 10 then none else some [n])) [1, 2, 1, 2, 0, 3]
+    asked = [10, 11, 12, 14] ∧ p.done = true ∧ p.winner = some 1 ∧ p.ret = some [11] := by decide
+
 /-! ### the code regions the model stands for
 Regenerated from /repo's source on every run (`harness/cmd/astfacts` → `OnetVerif/Shapes.lean`): the
 calls that matter for synchronisation and data flow, the lock regions and (for decision logic) the
